@@ -55,6 +55,10 @@ type schemaRenderer struct {
 func jstr(s string) string { b, _ := json.Marshal(s); return string(b) }
 
 func (r *schemaRenderer) xpathPart(i int) string {
+	if r.t.Kind[i-1] == "dynfield" {
+		// the single child is the xpath_dynamic declaration
+		return `"xpath_dynamic": ` + r.node(r.t.kids(i)[0])
+	}
 	if r.t.Xp[i-1] == 0 {
 		return ""
 	}
@@ -125,6 +129,9 @@ func (r *schemaRenderer) node(i int) string {
 
 func (r *schemaRenderer) bodyOrSelf(i int) []string {
 	parts := r.body(i)
+	if r.t.Kind[i-1] == "dynfield" {
+		return parts
+	}
 	if r.t.Kind[i-1] == "field" && r.t.Xp[i-1] == 0 {
 		// a field without xpath reads the cursor itself
 		parts = append([]string{`"xpath": "."`}, parts...)
@@ -331,7 +338,7 @@ func genDeclTree(r interface{ Intn(int) int }, m int) dtree {
 		for k := 0; k < nk && t.M < m; k++ {
 			choice := r.Intn(10)
 			switch {
-			case pk == "concat" || choice < 4 || depth >= 3:
+			case pk == "concat" || choice < 4 || depth >= 3 && choice != 4:
 				ty := tys[r.Intn(4)]
 				if pk == "concat" {
 					ty = "none" // well-typed call: concat takes strings
@@ -348,6 +355,11 @@ func genDeclTree(r interface{ Intn(int) int }, m int) dtree {
 				} else {
 					add(p, "field", r.Intn(5), ty, r.Intn(5) == 0, r.Intn(3) == 0, "")
 				}
+			case choice == 4 && pk != "concat":
+				// a field with a computed xpath; the computation is a constant naming a child (or nothing)
+				dtyp := tys[r.Intn(4)]
+				c := add(p, "dynfield", 0, dtyp, false, r.Intn(3) == 0, "")
+				add(c, "const", 0, "none", false, false, []string{"a", "b", ""}[r.Intn(3)])
 			case choice < 6:
 				c := add(p, "object", []int{0, 1, 2, 3}[r.Intn(4)], "none", false, r.Intn(4) == 0, "")
 				grow(c, depth+1)
